@@ -251,7 +251,12 @@ def run_check(prop, tier, seed, replay=None):
         raise Violation(payload)
     payload = correspond(prop, obs, impl_traces, bdir, hdr, cov)
     if payload is not None:
-        raise Violation(payload, nofail=True)
+        exact = any(getattr(o, "spec_exact", False) for o in obs if o.name == payload.get("obligation"))
+        if exact:
+            payload["reason"] = ("the implementation differs from the model on this simulator trace, and the model is proved equal to "
+                                 "the specification for every input trace: the trace is a failing input")
+            payload["confirmed_on_pysim"] = True
+        raise Violation(payload, nofail=not exact)
     if hasattr(prop, "correspondence"):
         payload = prop.correspondence(tier, rng, bdir, cov)
         if payload is not None:
